@@ -171,6 +171,18 @@ def predict(cfg, rng, q=None, collect=None):
         bad('min', 'r_singularity is not the minimum over the grid')
     if np.max(np.abs(q.inv_r_singularity_vs_varphi * q.r_singularity_vs_varphi - 1)) > 1e-12:
         bad('inv', 'inv_r_singularity_vs_varphi is not the reciprocal')
+    # the optional higher-order coefficients (high_order=True) are extra output: the reported radii do not depend on that flag
+    if isinstance(cfg, dict) and 'preset' not in cfg and not getattr(predict, '_nested', False):
+        try:
+            qh, _ = build(cfg)
+            qh.calculate_r_singularity(high_order=True)
+            n += 1
+            a_, b_ = np.asarray(qh.r_singularity_vs_varphi, dtype=float), np.asarray(q.r_singularity_vs_varphi, dtype=float)
+            if a_.shape != b_.shape or not np.array_equal(a_, b_):
+                bad('high_order', 'calculate_r_singularity(high_order=True) changes r_singularity_vs_varphi (largest relative change %.3g)'
+                    % (float(np.max(np.abs(a_ - b_) / np.maximum(np.abs(b_), 1e-300))) if a_.shape == b_.shape else float('nan')))
+        except Exception as e:
+            bad('high_order', 'calculate_r_singularity(high_order=True) raised %s' % type(e).__name__)
     # the minimum must be found wherever it sits on the grid: move the origin so that it lands on the LAST and on the FIRST grid point
     if isinstance(cfg, dict) and 'preset' not in cfg and not getattr(predict, '_nested', False):
         from oracle_sym import shifted_cfg
